@@ -189,6 +189,13 @@ def apiOp (op : String) (args : List String) : Option String :=
   | "DecodeUint32", [d, t] => do let d ← hexToBytes d; let t ← t.toNat?; pure (fmtDecode (decode readUint32 d (UInt64.ofNat t)) (fun v => toString v.toNat))
   | "DecodeUint", [d, t] => do let d ← hexToBytes d; let t ← t.toNat?; pure (fmtDecode (decode readUint d (UInt64.ofNat t)) (fun v => toString v.toNat))
   | "DecodeString", [d, t] => do let d ← hexToBytes d; let t ← hexToBytes t; pure (fmtDecode (decode readString d t) hexOrDash)
+  | "StdTree", [d] => do
+    -- ReadValue, then the StdLibCompatible helper that fits the value's kind
+    let d ← hexToBytes d
+    let r := readValue d
+    pure (if r.panicked then "panic" else match r.err with
+      | some _ => "err"
+      | none => if stdCollides (d.size + 2) r.val then "collide" else s!"ok {(stdTreeF (d.size + 2) r.val).render}")
   | "StdString", [s] => do let s ← hexToBytes s; pure (hexOrDash (stdLibCompatibleString s))
   | "StdBytes", [s, b] => do let s ← hexToBytes s; let b ← hexToBytes b; pure (hexOrDash (stdLibCompatibleStringBytes s b))
   | "ReadValue", [d] => do let d ← hexToBytes d; pure (fmtR (readValue d) JVal.render)
